@@ -94,6 +94,28 @@ Section Clauses.
     - eapply nth_error_In; exact Hkc.
   Qed.
 
+  (* what a composite reference leads to: the k-th component of new glyph i
+     is a glyph with the outline id (blank or not), width, name and number of
+     components of the k-th component of the original *)
+  Lemma cl_comp_identity : f_kind f = KGlyf -> forall i g x y,
+    nth_error sel i = Some g -> nth_error (f_glyphs f) (N.to_nat g) = Some x ->
+    nth_error (f_glyphs f') i = Some y ->
+    forall k c, nth_error (g_comps x) k = Some c ->
+      exists c' xc yc, nth_error (g_comps y) k = Some c' /\
+        nth_error (f_glyphs f) (N.to_nat c) = Some xc /\
+        nth_error (f_glyphs f') (N.to_nat c') = Some yc /\
+        g_outline yc = g_outline xc /\ g_width yc = g_width xc /\ g_name yc = g_name xc /\
+        length (g_comps yc) = length (g_comps xc) /\ is_blank yc = is_blank xc.
+  Proof.
+    intros Hk i g x y Hi Hx Hy k c Hkc.
+    destruct (cl_comps Hk i g x y Hi Hx Hy) as [_ H]. destruct (H k c Hkc) as [c' [Hc' Hsel]].
+    destruct (cl_glyph (N.to_nat c') c Hsel) as [xc [yc [Hxc [Hyc [Ho [Hw [Hn _]]]]]]].
+    destruct (cl_comps Hk (N.to_nat c') c xc yc Hsel Hxc Hyc) as [Hlen _].
+    exists c', xc, yc. repeat (split; [assumption|]).
+    unfold is_blank. rewrite Ho.
+    destruct (g_comps yc), (g_comps xc); cbn [length] in Hlen; try discriminate; reflexivity.
+  Qed.
+
   (* cmap *)
   Lemma cl_cmap : forall j c, nth_error (f_cmaps f) j = Some c ->
     exists c', nth_error (f_cmaps f') j = Some c' /\ NoDup (map fst c') /\
@@ -175,7 +197,7 @@ Section Clauses.
   Lemma wf_sub_ok : forall lk s, In lk (f_gsub f) -> In s lk -> sub_ok s.
   Proof.
     intros lk s Hlk Hs. destruct (wf_font_parts f Hwf) as [_ [_ [Hsub _]]].
-    specialize (Hsub lk s Hlk Hs). destruct s as [d cov|m|sets]; cbn [wf_subb sub_ok] in *.
+    specialize (Hsub lk s Hlk Hs). destruct s as [d cov|m|sets|alt m]; cbn [wf_subb sub_ok] in *; [| | |discriminate].
     - apply andb_true_iff in Hsub. apply nodupb_NoDup. tauto.
     - discriminate.
     - apply andb_true_iff in Hsub. apply nodupb_NoDup. tauto.
